@@ -238,3 +238,62 @@ Print Assumptions slice_of_pointers_refuted.
 Print Assumptions anonymous_slice_refuted.
 Print Assumptions yaml_float32_digits_refuted.
 Print Assumptions sticky_options_refuted.
+
+(* ------------------------------------------------------------------ seeded change C17-9: LoadFromJsonBytes
+   skips toLowerCaseKeyMap when the text has no upper-case ASCII letter and no non-ASCII byte.  But the pass
+   is not the identity on a lower-case document (an empty list becomes a nil []any, see [lc_val]), so the
+   lower-case spelling of a document and its mixed-case spelling load differently, and so do the JSON and the
+   YAML / TOML renderings of a document whose only capital letter is a float exponent.  [conf_load_pin9] looks
+   at the DECODED tree (keys, strings, number texts); the second manifestation of the seed (a JSON key written
+   with escapes has no capital letter in the raw text) is below the model's parser hypotheses and is tied by
+   the hand-written texts of the corpus only. *)
+Definition is_upper_or_wide (c : ascii) : bool :=
+  let n := N_of_ascii c in ((65 <=? n) && (n <=? 90) || (128 <=? n))%N.
+Fixpoint str_has_upper (s : string) : bool :=
+  match s with EmptyString => false | String c r => is_upper_or_wide c || str_has_upper r end.
+Fixpoint jv_has_upper (v : jv) {struct v} : bool :=
+  match v with
+  | JStr s | JNum s | JNat _ s => str_has_upper s
+  | JArr l => existsb jv_has_upper l
+  | JObj o =>
+    (fix go (o : list (string * jv)) : bool :=
+       match o with [] => false | (k, x) :: r => str_has_upper k || jv_has_upper x || go r end) o
+  | _ => false
+  end.
+
+Definition conf_load_pin9 (T : fields) (j : option jv) : result gval :=
+  match info_fields T fi_empty with
+  | None => Err ETag
+  | Some info =>
+    match j with
+    | Some (JObj o) =>
+      unmarshal fixed ccfg (lower_fields T) (Some (JObj (if jv_has_upper (JObj o) then lc_obj info o else o)))
+    | _ => Err EDoc
+    end
+  end.
+Definition load_pin9 (T : fields) (f : fmt) (d : doc) : result gval := conf_load_pin9 T (Some (shape rf_go f d)).
+
+Definition t_hosts : fields :=
+  FCons "Hosts" None (TSlice (TPrim KStr)) (FCons "Rate" (Some (mkOpts true None None None [] false)) (TPrim KF64) FNil).
+Definition d_hosts (k : string) : doc := DMap (DMcons k (DList DLnil) DMnil).
+Definition d_hosts_rate (e : string) : doc := DMap (DMcons "hosts" (DList DLnil) (DMcons "rate" (DFloat e) DMnil)).
+
+(* the unmodified loader: both spellings, every format, the same value *)
+Theorem lower_case_spelling_fixed : forall f,
+  load_doc rf_go t_hosts f (d_hosts "hosts") = load_doc rf_go t_hosts f (d_hosts "hOSTs") /\
+  exists x, load_doc rf_go t_hosts f (d_hosts_rate "1E5") = Ok (VStruct [VNil; VFloat x]).
+Proof. intro f. destruct f; vm_compute; split; try reflexivity; eexists; reflexivity. Qed.
+
+(* "keys matched case-insensitively" fails: the twin is a type-directed re-casing, and loads differently *)
+Theorem skipped_canonicalisation_refuted : forall f,
+  keys_distinct t_hosts = true /\ tr_top t_hosts (d_hosts "hosts") (d_hosts "hOSTs") = true /\
+  load_pin9 t_hosts f (d_hosts "hosts") <> load_pin9 t_hosts f (d_hosts "hOSTs").
+Proof. intro f. destruct f; vm_compute; repeat split; discriminate. Qed.
+
+(* format independence fails: JSON keeps the exponent as written, YAML and TOML re-render the number *)
+Theorem skipped_canonicalisation_formats_refuted :
+  load_pin9 t_hosts FJson (d_hosts_rate "1E5") <> load_pin9 t_hosts FYaml (d_hosts_rate "1E5") /\
+  load_pin9 t_hosts FJson (d_hosts_rate "1E5") <> load_pin9 t_hosts FToml (d_hosts_rate "1E5").
+Proof. vm_compute. split; discriminate. Qed.
+Print Assumptions skipped_canonicalisation_refuted.
+Print Assumptions skipped_canonicalisation_formats_refuted.
